@@ -315,18 +315,43 @@ def r131(ctx, rep, f, ev, cg, reach, O):
         rep.missing("R13.1", an)
     else:
         chain = [cal.split("::")[-1] for bb, t, cal, c in b.calls() if cal and (cal.startswith("core::iter") or cal.startswith("core::slice") or "Iterator" in cal)]
+        ADAPT = ("skip", "take", "step_by", "filter", "rev", "skip_while", "take_while", "filter_map", "chain", "zip", "peekable", "last", "nth", "chunks", "windows")
+        ok = not any(c in ADAPT for c in chain)
         fe = [(bb, t) for bb, t, cal, c in b.calls() if cal and cal.endswith("::for_each")]
-        ok = chain == ["iter", "for_each"] and len(fe) == 1
-        if ok:
-            so = show_origin(b.origin(fe[0][1]["args"][0]))
-            ok = "LaneDataFrame::data" in so and "arg2" in so
-        clo = an + "::{closure#0}"
-        if ok and clo in f.fns:
-            cb = cg.body(clo)
-            dcalls = [(bb, t) for bb, t, cal, c in cb.calls() if cal == dec]
-            ok = len(dcalls) == 1 and cb.all_paths_pass(0, [dcalls[0][0]]) and show_origin(cb.origin(dcalls[0][1]["args"][1])) in ("arg2.*", "*arg2", "arg2*")
-            if not ok:
-                chain.append("closure arg: %s" % (show_origin(cb.origin(dcalls[0][1]["args"][1])) if dcalls else None))
+        direct = [(bb, t) for bb, t, cal, c in b.calls() if cal == dec]
+        if fe:
+            # closure form: data().iter().for_each(|b| self.decode(*b))
+            ok = ok and len(fe) == 1 and not direct
+            if ok:
+                so = show_origin(b.origin(fe[0][1]["args"][0]))
+                ok = so.startswith("<impl [T]>::iter(&LaneDataFrame::data(arg2)")
+            clo = an + "::{closure#0}"
+            if ok and clo in f.fns:
+                cb = cg.body(clo)
+                dcalls = [(bb, t) for bb, t, cal, c in cb.calls() if cal == dec]
+                ok = len(dcalls) == 1 and cb.all_paths_pass(0, [dcalls[0][0]]) and show_origin(cb.origin(dcalls[0][1]["args"][1])) in ("arg2.*", "*arg2", "arg2*")
+                if not ok:
+                    chain.append("closure arg: %s" % (show_origin(cb.origin(dcalls[0][1]["args"][1])) if dcalls else None))
+            else:
+                ok = False
+        else:
+            # loop form: for b in data().iter() { self.decode(*b) }
+            nxt = [(bb, t) for bb, t, cal, c in b.calls() if cal and cal.endswith("Iterator>::next")]
+            ok = ok and len(direct) == 1 and len(nxt) == 1 and b.on_cycle(direct[0][0]) and b.dominates(nxt[0][0], direct[0][0])
+            if ok:
+                arg = show_origin(b.origin(direct[0][1]["args"][1]))
+                src = show_origin(b.origin(nxt[0][1]["args"][0]))
+                ok = "next(" in arg and arg.rstrip(")").endswith("@Some.0*") or ("next(" in arg and "@Some.0" in arg and arg.endswith("*"))
+                ok = ok and "<impl [T]>::iter(&LaneDataFrame::data(arg2)" in src
+                # decode on every iteration that yielded a byte
+                ok = ok and b.all_paths_pass(direct[0][0], [nxt[0][0]], to=b.return_blocks()) and not [x for x in b.succ[nxt[0][0]] if False]
+                some_t = None
+                sw = b.blocks[nxt[0][1]["t"]]["t"] if nxt[0][1].get("t") is not None else None
+                if sw and sw["k"] == "switch":
+                    some_t = [v[1] for v in sw["vals"] if v[0] == 1] or [sw["else"]]
+                    ok = ok and b.all_paths_pass(some_t[0], [direct[0][0]], to=[nxt[0][0]])
+                if not ok:
+                    chain.append("loop arg: %s from %s" % (arg, src[:80]))
         rep.check(ok, "R13.1", "R13.1|all-bytes-in-order", "every byte of the lane data is decoded once, in order (data().iter().for_each(decode))", WL,
                   "analyze_alpide_frame does not feed every lane byte in order to decode(): %s" % chain)
         # checks are run unless the lane is fatal
